@@ -45,6 +45,28 @@ func suiteParse(rn *runner, r *rng, tier string) {
 	var carry *simdjson.ParsedJson
 	suiteScratch = &scratchSet{} // caller-owned destinations of the ordered walk survive from case to case
 	defer func() { suiteScratch = nil }()
+	// atoms next to the end of the input: the validators of `true`/`false`/`null` read 8 bytes at once where they can and
+	// take a byte-wise path where fewer bytes remain; every single-byte misspelling, truncation and follow byte, at every
+	// distance from the end that the closing tokens below give (exhaustive: ~1700 short inputs)
+	for _, atom := range []string{"true", "false", "null"} {
+		var forms []string
+		forms = append(forms, atom, atom[:len(atom)-1], atom+"x", strings.ToUpper(atom[:1])+atom[1:])
+		for k := 0; k < len(atom); k++ {
+			for _, sub := range []string{"x", "y", "\x00", " ", ",", string(atom[k] - 32), string(atom[k] + 1)} {
+				forms = append(forms, atom[:k]+sub+atom[k+1:])
+			}
+		}
+		for _, f := range forms {
+			for _, shape := range []string{"[%s]", "[%s ]", "[[%s]]", "{\"a\":%s}", "[1,2,%s]", "[%s]\n", "[%s,1]", "[%s  ,1]", "[%s\x00]", "[%s}"} {
+				text := fmt.Sprintf(shape, f)
+				tc := parseCase(r, text, false, true, "atomtail")
+				rn.add(tc)
+				cls := "atomtail/" + atom
+				rn.rep.Distribution[cls]++
+				rn.seen[cls] = true
+			}
+		}
+	}
 	for i := 0; i < n; i++ {
 		cr := r.fork()
 		cfg := defaultCfg(cr)
